@@ -82,7 +82,8 @@ def run_c11(cfg: HCfg, c: Ctx) -> Any:
     flag_of: Dict[str, str] = {}  # node -> source of its twz_active flag ("IN" = the DAG input, else a node label)
     if cfg.length == 0:
         # build-validation only: every combination
-        root_kind = {l: (("input", "const", "none")[c.choose(3, "rootkind")] if not deps[l] else None) for l in labels}
+        # (dinput: the node takes the DAG's second, defaulted parameter)
+        root_kind = {l: (("input", "const", "none", "dinput")[c.choose(4, "rootkind")] if not deps[l] else None) for l in labels}
         lead_const = bool(c.choose(2, "lead_const"))  # nodes with dependencies also take a constant first
         pairs = [("IN", l) for l in labels] + [(labels[j], labels[i]) for i in range(N) for j in range(i)]
         k = c.choose(len(pairs) + 1, "flag")
@@ -92,12 +93,13 @@ def run_c11(cfg: HCfg, c: Ctx) -> Any:
         pattern = ("const", "none", "input-for-non-setup")[c.choose(3, "rootpattern")]
         root_kind = {l: (None if deps[l] else (pattern if pattern != "input-for-non-setup" else ("const" if is_setup[l] else "input"))) for l in labels}
         lead_const = True
-    takes_input = {l: root_kind[l] == "input" for l in labels}
+    takes_input = {l: root_kind[l] in ("input", "dinput") for l in labels}
     flavour = cfg.flavours[c.choose(len(cfg.flavours), "flavour")] if len(cfg.flavours) > 1 else cfg.flavours
     # the history
     graph_roots = [l for l in labels if root_kind[l] == "none"]
     OPS = ["call", "setup", "exec"] + ["exec:" + l for l in labels] + ["setup:" + l for l in labels] + ["setup:[]"] + (["deepcopy"] if cfg.deepcopy else [])
     OPS += ["execsetup:" + l for l in labels]  # executor(target_nodes=[l]).setup(): the setup nodes that selection needs
+    OPS += ["hold", "runheld"]  # an executor of the whole DAG is created now and run by a later operation
     if graph_roots:
         OPS.append("setupRT:%s:%s" % (graph_roots[0], labels[-1]))  # setup(root_nodes=[r], target_nodes=[t])
     returns_none = bool(is_setup[labels[0]] and c.choose(2, "returns_none"))  # the first setup node returns None
@@ -126,18 +128,20 @@ def run_c11(cfg: HCfg, c: Ctx) -> Any:
 
     xns = {l: xn(make(l), setup=is_setup[l], resource=Resource.main_thread) for l in labels}
 
-    def args_of(l: str, x: Any, r: Dict[str, Any]) -> List[Any]:
+    def args_of(l: str, x: Any, r: Dict[str, Any], y: Any = None) -> List[Any]:
         if not deps[l]:
+            if root_kind[l] == "dinput":
+                return [y]
             return [x] if root_kind[l] == "input" else ([7] if root_kind[l] == "const" else [])
         return ([7] if lead_const else []) + [r[d] for d in deps[l]]
 
-    def pipe(x):  # type: ignore[no-untyped-def]
+    def pipe(x, y=None):  # type: ignore[no-untyped-def]
         r: Dict[str, Any] = {}
         for l in labels:
             kw = {}
             if l in flag_of:
                 kw["twz_active"] = x if flag_of[l] == "IN" else r[flag_of[l]]
-            r[l] = xns[l](*args_of(l, x, r), **kw)
+            r[l] = xns[l](*args_of(l, x, r, y), **kw)
         return tuple(r[l] for l in labels)
 
     pipe.__qualname__ = pipe.__name__ = "pipe"
@@ -157,6 +161,7 @@ def run_c11(cfg: HCfg, c: Ctx) -> Any:
     setups = [l for l in labels if is_setup[l]]
     # reference state per instance: which setup nodes are done and with which value
     inst_of = {0: d}
+    held: Dict[int, Any] = {}
     cur = 0
     done: Dict[int, Dict[str, Any]] = {0: {}}
     next_inst = 1
@@ -174,7 +179,16 @@ def run_c11(cfg: HCfg, c: Ctx) -> Any:
             next_inst += 1
             c.cover("w_deepcopy")
             continue
-        if name == "call":
+        if name == "hold":
+            held[cur] = dd.executor()
+            continue
+        if name == "runheld":
+            if held.get(cur) is None:
+                continue
+            sel = set(labels)
+            out = _run(held.pop(cur), X)
+            c.cover("w_held_executor")
+        elif name == "call":
             sel = set(labels)
             out = _run(dd, X)
         elif name == "exec":
@@ -615,7 +629,11 @@ def run_c18(cfg: HCfg, c: Ctx) -> Any:
     sels += ["deps_of:%s,%s" % (labels[i], labels[j]) for i in range(N) for j in range(i + 1, N)]  # cache_deps_of=[a, b]
     flavour = cfg.flavours[c.choose(len(cfg.flavours), "flavour")] if len(cfg.flavours) > 1 else cfg.flavours
     sel1 = sels[c.choose(len(sels), "sel1")]
-    restart_same_sel = bool(c.choose(2, "restart_same_sel"))
+    # the restart uses the same selection, the whole DAG, or a target selection of its own
+    rmode = c.choose(3, "restart_selection")
+    restart_same_sel = rmode == 0
+    restart_other = ("target:" + labels[c.choose(N, "restart_target")]) if rmode == 2 else None
+    omit_args = bool(rmode != 2 and c.choose(2, "restart_without_arguments"))  # the restart relies on the DAG inputs stored in the cache
     restart_on_copy = bool(c.choose(2, "restart_on_copy"))
     second_round = bool(cfg.length >= 4 and c.choose(2, "second_round"))
     sel2 = sels[c.choose(len(sels), "sel2")] if second_round else None
@@ -700,7 +718,7 @@ def run_c18(cfg: HCfg, c: Ctx) -> Any:
             # ---- restart
             target = copy.deepcopy(pristine) if restart_on_copy else inst
             setup_done_on_target = setup_done_on_d and not restart_on_copy
-            rsel = sel if restart_same_sel else "whole"
+            rsel = sel if restart_same_sel else (restart_other or "whole")
             rkw = kw_of(rsel)
             X2 = c.val("x_restart%d" % rnd)
             entered.clear()
@@ -708,7 +726,12 @@ def run_c18(cfg: HCfg, c: Ctx) -> Any:
             chained = bool(rsel == "whole" and c.choose(2, "chained"))
             path2 = os.path.join(tmp, "cache2.pkl")
             rex = target.executor(from_cache=path, **rkw, **({"cache_in": path2} if chained else {}))
-            out2 = _run(rex, X2)
+            if omit_args and any(str(k).endswith(">!>x") for k in content):
+                out2 = _run(rex)
+                X2 = X1  # the cached DAG input is what the re-executed nodes see
+                c.cover("w_restart_without_arguments")
+            else:
+                out2 = _run(rex, X2)
             ran = list(entered)
             if chained:
                 with open(path2, "rb") as f:
